@@ -1385,7 +1385,8 @@ static PhysText generateModel(Rng& rng, ModelInfo& mi) {
     for (auto& w : wells) for (int k = 1; k <= nz; ++k) {
         p.t(" '" + w.name + "' " + std::to_string(w.i) + " " + std::to_string(w.j) + " " + std::to_string(k) + " " + std::to_string(k) + " 'OPEN' 1*");
         int form = (int)rng.below(4);
-        if (form == 0) { p.v(LU(1e-13, 1e-11), "Viscosity*ReservoirVolume/Time*Pressure").v(U(0.1, 0.3), "Length"); vd(LU(1e-13, 1e-11), "Permeability*Length", 0.5); vd(U(-1, 5), "1", 0.5); }
+        // CF and Kh both given: the library derives the equivalent radius r0 = rw exp(2 pi Kh / CF - S); keep the exponent moderate
+        if (form == 0) { const double kh = LU(1e-13, 1e-11); p.v(2 * M_PI * kh / U(5, 9), "Viscosity*ReservoirVolume/Time*Pressure").v(U(0.1, 0.3), "Length"); vd(kh, "Permeability*Length", 0.5); vd(U(-1, 5), "1", 0.5); }
         else if (form == 1) { p.d().v(U(0.1, 0.3), "Length").v(LU(1e-13, 1e-11), "Permeability*Length").v(U(-1, 5), "1"); vd(LU(1e-3, 1e-1), "Time/GasSurfaceVolume", 0.5); p.t(" '" + std::string(1, "XYZ"[rng.below(3)]) + "'"); vd(U(5, 40), "Length", 0.5); }
         else if (form == 2) { p.d().v(U(0.1, 0.3), "Length").d().v(U(-1, 5), "1").d().t(" 'Z'"); }
         else { p.d().v(U(0.1, 0.3), "Length"); }
